@@ -900,7 +900,7 @@ class Rewriter:
         b = self.sub('R27:any-is', r'\bself\.is::<T>\(\)', 'any_is_T(&self)', b)
         b = self.sub('R27:ptr-eq', r'\b(?:core::)?ptr::eq(?:::<[^>]*>)?\(&\*\*self, &\*\*other\)', 'ptr_identical(self, other)', b)
         b = self.map_calls(b, r'\bv\.into_boxed_slice', lambda m_, a: 'v.into_boxed_slice(st)', 'R27:thread-store')
-        b = self.sub('R27:forget', r'\bmem::forget\(self\)', 'vec_forget(self, st)', b)
+        b = self.sub('R27:forget', r'\b(?:core::)?mem::forget\((\w+)\)', r'vec_forget(\1, st)', b)
         b = self.sub('R27:vec-len', r'\bself\.len\b(?!\()', 'self.len', b)
         # forwarding to the inner value
         b = self.sub('R27:forward', r'\b(?:PartialEq|PartialOrd|Ord)::(\w+)\(&\*\*self, &\*\*other\)', r'inner_\1(self, other)', b)
@@ -912,6 +912,10 @@ class Rewriter:
         b = self.sub('R27:write-macro', r'\bwrite!\((\w+), "\{\}", &\*\*self\)', r'{ let mut f2__ = fresh_formatter(\1); inner_fmt_display(self, &mut f2__, st) }', b)
         b = self.sub('R27:write-macro', r'\bwrite!\((\w+), "\{:\?\}", &\*\*self\)', r'{ let mut f2__ = fresh_formatter(\1); inner_fmt_debug(self, &mut f2__, st) }', b)
         b = self.map_calls(b, r'\bself\.shrink_to_fit', lambda m_, a: 'self.shrink_to_fit(st)', 'R27:thread-store')
+        b = self.sub('R27:vec-ctor', r'(?<![\w:])Vec::new_in\(a\)', 'VecOwn::new_in(a, st)', b)
+        b = self.sub('R27:thread-store', r'\bvec\.extend\(iter\)', 'vec.extend(iter, st)', b)
+        b = self.sub('R27:thread-store', r'\bvec\.into_boxed_slice\(\)', 'vec.into_boxed_slice(st)', b)
+        b = self.sub('R27:use-decl', r'(?m)^\s*use crate::collections::Vec;\s*$', '', b)
         b = self.sub('R27:forward', r'\(\*\*self\)\.(next|next_back)\(\)', r'inner_\1(self, st)', b)
         b = self.sub('R27:forward', r'\(\*\*self\)\.(nth|nth_back)\(([^()]*)\)', r'inner_\1(self, \2, st)', b)
         b = self.sub('R27:forward', r'\(\*\*self\)\.size_hint\(\)', 'inner_size_hint(self, st)', b)
